@@ -4,6 +4,7 @@ import (
 	"fmt"
 	"go/types"
 	"os"
+	"strings"
 
 	"gowp/smt"
 	"gowp/spec"
@@ -13,16 +14,38 @@ import (
 
 func (x *Exec) registerGhosts() {
 	x.Ghosts["operand"] = ghostOperand
-	x.Ghosts["variable"] = ghostVariable
-	x.Ghosts["boxed"] = func(f *Frame, st, old *State, idx []spec.Expr, args []spec.Expr) TV {
-		fe := f.x.needFam("boxed")
-		p := f.x.variablePlace(f, fe, args, st, fe.create, "boxed")
-		return TV{p.read(st), p.typ}
+	mkVar := func(name, force string) GhostFn {
+		return func(f *Frame, st, old *State, idx []spec.Expr, args []spec.Expr) TV {
+			x := f.x
+			fe := x.needFam(name)
+			p := x.variablePlace(f, fe, args, st, fe.create, force)
+			// the textual form of the whole ghost call identifies an already resolved place
+			var as []string
+			for _, a := range args {
+				as = append(as, a.String())
+			}
+			key := name + "(" + strings.Join(as, ", ") + ")"
+			if rs, ok := fe.resolved[key]; ok {
+				return TV{rs.read(st), p.typ}
+			}
+			return TV{p.resolve(st).read(st), p.typ}
+		}
 	}
-	x.Ghosts["unboxed"] = func(f *Frame, st, old *State, idx []spec.Expr, args []spec.Expr) TV {
-		fe := f.x.needFam("unboxed")
-		p := f.x.variablePlace(f, fe, args, st, fe.create, "unboxed")
-		return TV{p.read(st), p.typ}
+	x.Ghosts["variable"] = mkVar("variable", "")
+	x.Ghosts["boxed"] = mkVar("boxed", "boxed")
+	x.Ghosts["unboxed"] = mkVar("unboxed", "unboxed")
+	x.Ghosts["valueconst"] = ghostValueConst
+	x.Ghosts["call"] = ghostCall
+	x.Ghosts["funkind"] = func(f *Frame, st, old *State, idx []spec.Expr, args []spec.Expr) TV {
+		fe := f.x.needFam("funkind")
+		if len(args) != 1 {
+			specErr("funkind(f)")
+		}
+		k, _, ok := fe.funKind(fe.atCreation(args[0]))
+		if !ok {
+			specErr("the dynamic type of %s is not determined on this path", args[0])
+		}
+		return TV{f.x.B.BVC(k, 64), nil}
 	}
 	x.Ghosts["goeq"] = ghostGoEq
 	x.Ghosts["goneq"] = func(f *Frame, st, old *State, idx []spec.Expr, args []spec.Expr) TV {
@@ -130,13 +153,6 @@ func ghostOperand(f *Frame, st, old *State, idx []spec.Expr, args []spec.Expr) T
 	return tv
 }
 
-// variable(v [, depth]): the current content of the compile-time variable v.
-func ghostVariable(f *Frame, st, old *State, idx []spec.Expr, args []spec.Expr) TV {
-	x := f.x
-	fe := x.needFam("variable")
-	p := x.variablePlace(f, fe, args, st, fe.create, "")
-	return TV{p.read(st), p.typ}
-}
 
 // constant(i, v): the constant stored in the interface value i, in the kind of v.Type.
 func ghostConstant(f *Frame, st, old *State, idx []spec.Expr, args []spec.Expr) TV {
@@ -202,4 +218,65 @@ func ghostGoEq(f *Frame, st, old *State, idx []spec.Expr, args []spec.Expr) TV {
 	}
 	specErr("goeq of %T", a.V)
 	return TV{}
+}
+
+// funKind: for an interface value whose dynamic type is pinned to func(*Env) K on this path,
+// K (as a reflect.Kind) and the function value.
+func (fe *famEnv) funKind(i TV) (uint64, *smt.Term, bool) {
+	x := fe.x
+	fs, ok := i.V.(*Struct)
+	if !ok || len(fs.Fields) != 2 {
+		return 0, nil, false
+	}
+	tc, ok := fe.pinned(fs.Fields[0].(*smt.Term))
+	if !ok {
+		return 0, nil, false
+	}
+	ft := x.typeOf[int64(tc.Val)]
+	if ft == nil {
+		return 0, nil, false
+	}
+	sig, isSig := ft.Underlying().(*types.Signature)
+	if !isSig || sig.Results().Len() != 1 {
+		return 0, nil, false
+	}
+	b, isBasic := sig.Results().At(0).Type().Underlying().(*types.Basic)
+	if !isBasic {
+		return 0, nil, false
+	}
+	for k := uint64(1); k <= kString; k++ {
+		if kt := KindType(k); kt != nil && kt.(*types.Basic).Kind() == b.Kind() {
+			return k, x.scalar(fs.Fields[1], nil), true
+		}
+	}
+	return 0, nil, false
+}
+
+// call(f): the result of calling, on env, the function held by the interface value f
+// (dynamic type func(*Env) K pinned on this path).
+func ghostCall(f *Frame, st, old *State, idx []spec.Expr, args []spec.Expr) TV {
+	x := f.x
+	fe := x.needFam("call")
+	if len(args) != 1 {
+		specErr("call(f)")
+	}
+	key := "call:" + args[0].String()
+	if tv, ok := fe.memo[key]; ok {
+		return tv
+	}
+	k, callee, ok := fe.funKind(fe.atCreation(args[0]))
+	if !ok {
+		specErr("the dynamic type of %s is not determined on this path", args[0])
+	}
+	gt := KindType(k)
+	envT := types.NewPointer(fe.envType())
+	sig := types.NewSignatureType(nil, nil, nil, types.NewTuple(types.NewVar(0, nil, "env", envT)), types.NewTuple(types.NewVar(0, nil, "", gt)), false)
+	fe.sawCall = true
+	callee = x.simplifyUnder(st.PC, callee)
+	r := x.opaqueCall(nil, st, nil, callee, []Value{fe.env}, sig)
+	tv := TV{r, gt}
+	if fe.collect {
+		fe.memo[key] = tv
+	}
+	return tv
 }
